@@ -216,6 +216,35 @@ def run(ck, F):
     # get_symbol's re-typing of a found element, checked separately: the value written equals the key component compared
     ck.note('get_symbol re-stores the type of a found symbol; the comparator (C04 KEY) shows the found element already has that type')
 
+    # ---------------------------------------------------------------- a later request leaves earlier nodes as they were
+    R6 = ck.rule('C05.later-request-leaves-nodes', 'a second request to the same factory (any arguments, evaluated on the state the '
+                 'first one left: found, redeclared and fresh paths) changes no field of an object that existed before it; it may only '
+                 'grow the factory\'s containers', floor=240)
+    import keyrule
+    REWRITE_ALLOWED = {('ipr::impl::Symbol', 'typing'):
+                       'get_symbol stores the type again on a symbol it found by (name, type): the comparator (C04 KEY) '
+                       'shows the found element already carries that type'}
+    for f in sorted(wire.all_factories(F), key=lambda f: f['id']):
+        sid = '::'.join(contracts.fn_qname(f['id']).split('::')[-2:]) + '/' + str(len(f['params']))
+        bad = []
+        try:
+            for st1, k1, _v1 in S.run(f['id']):
+                if k1 != 'return':
+                    continue
+                snap = {i: dict(o.fields) for i, o in st1.heap.items()}
+                for st2, _k2, _v2 in S.run(f['id'], args=keyrule.qparams(len(f['params'])), state=st1.fork()):
+                    for i, before in snap.items():
+                        now = st2.heap[i].fields
+                        for name in set(before) | set(now):
+                            if before.get(name) != now.get(name) and (st1.heap[i].cls, name) not in REWRITE_ALLOWED:
+                                bad.append(f'{contracts.short(st1.heap[i].cls)}::{name} of an object built by the first request '
+                                           f'is overwritten by the second')
+        except Unsupported as e:
+            raise AnalysisBroken(f'{f["id"]} (second request): {e}')
+        ck.check(R6, sid, not bad, f'{f["id"]}: ' + '; '.join(sorted(set(bad))[:3]), loc=f['loc'], fn=f['id'])
+    for (c, n), why in REWRITE_ALLOWED.items():
+        ck.note(f'{contracts.short(c)}::{n} may be re-stored: {why}')
+
     # immotile: copy/move disabled for node classes (supporting fact)
     movable = [n for n in sorted(node_like) if not F.rec[n]['abstract'] and F.derives_from(n, 'ipr::Node')
                and (F.rec[n]['copy_constructible'] or F.rec[n]['move_constructible'])]
